@@ -6,6 +6,7 @@ import (
 	"net/url"
 	"time"
 
+	"github.com/buildbuildio/pebbles/gqlerrors"
 	"github.com/buildbuildio/pebbles/requests"
 	"github.com/buildbuildio/pebbles/verifhook"
 	"github.com/gobwas/ws"
@@ -143,10 +144,17 @@ func (q *MultiOpQueryer) Subscribe(req *requests.Request, closeCh <-chan struct{
 			}
 
 			switch serverResp.Type {
+			case requests.SubError, requests.SubConnectionError:
+				// the payload of an error message may also be one error object (a list of them was handled above)
+				var single struct {
+					Payload *gqlerrors.Error `json:"payload"`
+				}
+				if err := json.Unmarshal(msg, &single); err == nil && single.Payload != nil && single.Payload.Message != "" {
+					send(&requests.Response{Errors: gqlerrors.ErrorList{single.Payload}})
+				}
+				return
 			case requests.SubComplete,
-				requests.SubConnectionError,
-				requests.SubConnectionTerminate,
-				requests.SubError:
+				requests.SubConnectionTerminate:
 				return
 			case requests.SubData:
 				verifhook.At("q.sub.reader.before_send", resCh)
